@@ -363,6 +363,11 @@ fn eval_ops_inner(req: &str) -> ImplOut {
                 .map(|(n, _, _)| n.to_uppercase())
                 .collect();
             for po in pre_obs.iter().filter(|c| c.sheet_id != del) {
+                // formula-less cells outside the generator's data block (rows 1-3) are spill cells of a
+                // dynamic-array formula elsewhere; whether they are related is decided at their anchor
+                if po.formula.is_none() && po.row > 3 {
+                    continue;
+                }
                 let fo = po.formula.clone().unwrap_or_default();
                 if fo.to_uppercase().contains(&del_up) || names_on_deleted.iter().any(|n| fo.to_uppercase().contains(n)) {
                     continue;
@@ -657,8 +662,19 @@ fn eval_xlsx_inner(req: &str) -> ImplOut {
     let idx = |m: &Model, o: &CellObs| m.workbook.worksheets.iter().position(|w| w.sheet_id == o.sheet_id).unwrap_or(0);
     let a = observe(&m);
     let b = observe(&m2);
+    let name_list: Vec<String> = m.get_defined_name_list().into_iter().map(|(n, _, _)| n).collect();
     for x in &a {
-        if x.formula.is_none() {
+        // C32 is about names: only formulas that use a defined name are compared here; the general
+        // formula round trip (e.g. an explicit `@` dropped by the exporter) is C24's subject
+        let fx = match &x.formula {
+            Some(f) => f.clone(),
+            None => continue,
+        };
+        if !name_list.iter().any(|n| has_ident(&fx, n)) {
+            continue;
+        }
+        if fx.contains('@') || fx.contains('#') {
+            out = out.tag("xlsx:skipped-@-or-#");
             continue;
         }
         let xi = idx(&m, x);
